@@ -437,6 +437,39 @@ pub fn run_pass(ctx: &Ctx, report: &Report, fams: &[vpe1::Family], tag: &str, st
         );
     };
 
+    // derived programs (de-duplication stress): every value-only program of at most two calls,
+    // emitted twice over aliased inputs, the copy pinned to a public input, three consumers
+    {
+        use vpe1::enumerate::{Family, VK};
+        let base = Family {
+            name: "dupbase-k2-c0".into(),
+            value_kinds: vec![VK::Add, VK::Sub, VK::Mul, VK::MulAdd],
+            assert_kinds: vec![],
+            max_value_ops: 2,
+            max_asserts: 0,
+            max_pub: 2,
+            max_priv: 0,
+            consts: vec![2],
+            max_wide: 1,
+            wide_no_atoms: true,
+            sym_reduce: true,
+            stages: vec![],
+            assert_split: None,
+        };
+        let (s2, p2, st2) = (SeenSet::default(), SeenSet::default(), Stats::default());
+        let n_derived = AtomicU64::new(0);
+        explore::<BabyBear, F>(&base, &cs, ctx, 0.95, &s2, &p2, &st2, &|_p, _m| {}, &|p, _m| {
+            let Some(q) = vpe1::prog::duplicate_with_aliases(p) else { return };
+            n_derived.fetch_add(1, Ordering::Relaxed);
+            if let Ok(found) = check_program(&q, &cs, Some(&cnt), Some(&outcomes)) {
+                for f in found {
+                    record(&q, f);
+                }
+            }
+        });
+        eprintln!("[{}] derived alias-duplicated programs checked: {}", if tag.is_empty() { "d1" } else { tag }, n_derived.load(Ordering::Relaxed));
+    }
+
     for fam in fams {
         let stats = Stats::default();
         // pruning is per family: the subtree below a state depends on the family's bounds
